@@ -1168,6 +1168,154 @@ def bare_models_boundary_seeds(ctx, chi):
             ctx.spec('C16.reproducible/%s.int_seed' % name, np.array_equal(a, b), inp)
 
 
+# ----------------------------------------------------------------------------------------
+# histories on ONE object: the arguments (individual, n_samples, times) change from call to call
+# ----------------------------------------------------------------------------------------
+def history_posterior(ctx, chi, rng, case):
+    """ONE PosteriorPredictiveModel / PAMPredictiveModel over a posterior with >= 2 individuals is asked for
+    different individuals (also the default one), sample sizes and times in sequence.  The seed determines the
+    result whatever was called before on the object: every call must return what a freshly built object returns
+    for the same arguments and the same seed (under another global generator state)."""
+    spec = gen_spec(rng, 1, flat=False, allow_pop=False)
+    n_mech = spec['n_mech']
+    ids = ['id%d' % i for i in range(int(rng.integers(2, 5)))]
+    if rng.random() < 0.3:
+        ids = [str(x) for x in rng.permutation(ids)]
+    n_chains, n_draws = int(rng.integers(1, 4)), int(rng.integers(2, 6))
+    pad = int(rng.choice([0, 0, 1])) if n_draws > 2 else 0
+    use_pam = bool(rng.random() < 0.3)
+    n_models = int(rng.integers(2, 4)) if use_pam else 1
+    base = spec_parameters(spec)
+    jitter = rng.uniform(0.97, 1.03, size=(n_models, len(base), n_chains, n_draws, len(ids)))
+    all_individual = bool(rng.random() < 0.3)        # also the noise scales are individual-level parameters
+    weights = [float(x) for x in rng.uniform(0.2, 1.0, n_models)]
+
+    def make():
+        model, _, _ = build_predictive(chi, spec)
+        names = model.get_parameter_names()
+        pop_level = [] if all_individual else [nm for nm in names if 'Sigma' in nm]
+        posts = []
+        for mdl in range(n_models):
+            # the individuals' parameters are clearly separated: whose posterior was used shows in the values
+            ds = K.make_posterior(
+                names, n_chains, n_draws, ids,
+                lambda p, c, d, i, mdl=mdl: float(base[p] * (1.0 + (0.5 * i + 0.13 * mdl if p < n_mech else 0.0))
+                                                  * jitter[mdl, p, c, d, i]),
+                pop_level=pop_level, pad=pad)
+            posts.append(chi.PosteriorPredictiveModel(model, ds))
+        obj = chi.PAMPredictiveModel(posts, weights) if use_pam else posts[0]
+        return obj, model.get_output_names()
+
+    n_calls = int(rng.integers(2, 6))
+    calls = []
+    for j in range(n_calls):
+        ind = None if rng.random() < 0.2 else ids[int(rng.integers(len(ids)))]
+        s, _, g = gen_seed_triplet(rng)
+        calls.append({'individual': ind, 'seed': list(g) if rng.random() < 0.3 else s,
+                      'n': None if rng.random() < 0.15 else int(rng.integers(1, 5)),
+                      'times': gen_times(rng, int(rng.integers(1, 4)))})
+    eff = [c['individual'] or ids[0] for c in calls]
+    if len(set(eff)) < 2:
+        calls[-1]['individual'] = [i for i in ids if i != eff[0]][int(rng.integers(len(ids) - 1))]
+    if rng.random() < 0.4:
+        # the same seed (and arguments) for two different individuals
+        calls[-1]['seed'] = calls[0]['seed']
+        if rng.random() < 0.5:
+            calls[-1]['n'], calls[-1]['times'] = calls[0]['n'], list(calls[0]['times'])
+
+    def seed_obj(sd):
+        return K.make_seed(tuple(sd)) if isinstance(sd, list) else int(sd)
+
+    def call(obj, outputs, c):
+        df = obj.sample(list(c['times']), n_samples=c['n'], individual=c['individual'], seed=seed_obj(c['seed']))
+        return K.table_entries(df, outputs, list(np.sort(c['times'])))
+
+    cls = type(make()[0]).__name__
+    inp = {'case': case, 'entry': 'history/' + cls, 'spec': spec, 'ids': ids, 'n_chains': n_chains,
+           'n_draws': n_draws, 'pad': pad, 'calls': calls, 'weights': weights if use_pam else None}
+    ctx.case('history/%s' % cls, nontrivial='history/%s/%d-calls' % (cls, min(n_calls, 3)), sample=inp)
+    held, outputs = make()
+    for j, c in enumerate(calls):
+        w1, w2 = gen_worlds(rng)
+        K.set_world(w1)
+        got = call(held, outputs, c)
+        K.set_world(w2)
+        interleave(chi, j)
+        fresh, _ = make()
+        want = call(fresh, outputs, c)
+        ctx.spec('C16.reproducible_after_other_calls/%s' % cls, K.entries_equal(got, want),
+                 dict(inp, call_index=j, world1=list(w1), world2=list(w2)),
+                 {'object_with_history': sorted(got.items())[:4], 'fresh_object': sorted(want.items())[:4],
+                  'earlier_individuals': [x['individual'] for x in calls[:j]], 'individual': c['individual']})
+
+
+# ----------------------------------------------------------------------------------------
+# large cohorts: the random effects of the individuals of ONE call are pairwise different draws
+# ----------------------------------------------------------------------------------------
+def large_cohort(ctx, chi, rng, case, force_trunc_cov=False):
+    """thousands of individuals from one call of a population model (elementary, covariate-wrapped, inside a
+    composed model; integer or Generator seed).  The inter-individual fluctuations are draws from a continuous
+    distribution: no two individuals may carry the same one (streams restarted from a small set of derived
+    seeds show as exact ties in a cohort of this size)."""
+    n = int(rng.integers(4500, 6001))
+    elem = ['gaussian', 'logNormal', 'logNormal', 'truncGauss'][int(rng.integers(4))]
+    sub = {'elem': elem, 'nDim': int(rng.integers(1, 3)), 'cov': bool(rng.random() < 0.7),
+           'centered': bool(rng.random() < 0.7)}
+    if force_trunc_cov:
+        sub['elem'], sub['cov'] = 'truncGauss', True
+    subs = [sub]
+    composed = bool(rng.random() < 0.5)
+    if composed:
+        other = {'elem': ['gaussian', 'pooled', 'logNormal'][int(rng.integers(3))], 'nDim': 1,
+                 'cov': bool(rng.random() < 0.3), 'centered': True}
+        subs = [other, sub] if rng.random() < 0.5 else [sub, other]
+    pop = {'subs': subs, 'composed': composed, 'n_ids': 2, 'n_cov': int(rng.integers(1, 3))}
+    theta = pop_params(rng, pop)
+    nc = K.pop_ncov_total(pop)
+    cov = None
+    if nc:
+        if rng.random() < 0.4:
+            cov = [float(x) for x in rng.uniform(-1, 1, nc)]                    # one sub-population
+        else:
+            cov = rng.uniform(-1, 1, size=(n, nc)).tolist()
+    s, _, g = gen_seed_triplet(rng)
+    seed = list(g) if rng.random() < 0.4 else s
+    model = K.build_pop(chi, pop)
+    K.set_world(gen_worlds(rng)[0])
+    sd = K.make_seed(tuple(seed)) if isinstance(seed, list) else seed
+    if composed:
+        a = model.sample(theta, n_samples=n, seed=sd, covariates=cov)
+    elif sub['cov']:
+        a = model.sample(theta, cov, n_samples=n, seed=sd)
+    else:
+        a = model.sample(theta, n_samples=n, seed=sd)
+    a = np.asarray(a, float)
+    cls = type(model).__name__
+    name = '+'.join(('cov:' if x.get('cov') else '') + x['elem'] for x in subs)
+    inp = {'case': case, 'entry': 'large_cohort', 'pop': pop, 'theta': theta, 'n': n, 'seed': seed,
+           'covariates': cov if cov is None or not isinstance(cov[0], list) else 'uniform(-1, 1) rows'}
+    ctx.case('large_cohort/%s' % name, nontrivial='large_cohort/%s' % name, sample=inp)
+    # (covariate coefficients are zero in `pop_params`: equal fluctuations give bit-identical parameters)
+    tied, pairs = 0, []
+    d0 = 0
+    for x in subs:
+        for d in range(d0, d0 + x['nDim']):
+            if x['elem'] in ('pooled', 'hetero'):
+                continue
+            col = a[:, d]
+            order = np.argsort(col, kind='stable')
+            eq = np.nonzero(np.diff(col[order]) == 0)[0]
+            tied += len(eq)
+            pairs += [(int(order[k]), int(order[k + 1]), d) for k in eq[:2]]
+        d0 += x['nDim']
+    if any(x['elem'] == 'truncGauss' and x.get('cov') for x in subs):
+        # (own tag: TruncatedGaussianModel turns a Generator into one of 10^6 integer seeds per call, and the
+        # covariate wrapper calls it once per individual)
+        cls = 'CovariatePopulationModel(TruncatedGaussianModel)'
+    ctx.spec('C16.independent_individuals/%s.large_cohort' % cls, a.shape[0] == n and tied == 0, inp,
+             {'individuals_with_the_fluctuation_of_another_one': tied, 'pairs (i, j, dim)': pairs[:4]})
+
+
 def run(ctx):
     chi = core.import_chi()
     check_numpy_identities(ctx)
@@ -1185,6 +1333,10 @@ def run(ctx):
                 r, cfg, cls, nontriv = mk(chi, rng)
             cfg['case'] = k - 1
             ctx.guard(check_runner, ctx, chi, r, cfg, cls, nontriv, rng)
+    for j in range(24 if ctx.tier == 'quick' else 300):
+        ctx.guard(history_posterior, ctx, chi, ctx.sub_rng(3 * 10 ** 6 + j), 'history/%d' % j)
+    for j in range(6 if ctx.tier == 'quick' else 60):
+        ctx.guard(large_cohort, ctx, chi, ctx.sub_rng(4 * 10 ** 6 + j), 'cohort/%d' % j, force_trunc_cov=(j == 0))
     # boundary seed 0 (a valid integer seed that is falsy) on every kind of entry point, and on a
     # population model that contains each elementary sampler
     wanted = ['gaussian', 'logNormal', 'truncGauss', 'hetero', 'pooled']
@@ -1210,6 +1362,13 @@ def replay(ctx, data):
     inp = data['failing']['input']
     if 'case' not in inp:
         corpus(ctx, chi)
+    elif isinstance(inp['case'], str) and inp['case'].split('/')[0] in ('history', 'cohort'):
+        kind, j = inp['case'].split('/')
+        ctx.seed = data.get('seed', ctx.seed)
+        if kind == 'history':
+            history_posterior(ctx, chi, ctx.sub_rng(3 * 10 ** 6 + int(j)), inp['case'])
+        else:
+            large_cohort(ctx, chi, ctx.sub_rng(4 * 10 ** 6 + int(j)), inp['case'], force_trunc_cov=(int(j) == 0))
     else:
         k = int(inp['case'])
         saved = ctx.seed
